@@ -61,6 +61,7 @@ type Contract struct {
 	Key        string // RelString of the function within its package
 	Props      []string
 	Requires   []Clause
+	Decreases  []Clause // termination measure of a self-recursive function (lexicographic, every component bounded below by 0)
 	Ensures    []Clause
 	Modifies   []Clause
 	NoPanic    bool
@@ -306,6 +307,14 @@ func (cs *ContractSet) parseFile(pkgPath, file string) error {
 				return err
 			}
 			cur.Requires = append(cur.Requires, c)
+		case strings.HasPrefix(t, "decreases "):
+			for _, part := range splitTop(t[10:]) {
+				c, err := mk(part)
+				if err != nil {
+					return err
+				}
+				cur.Decreases = append(cur.Decreases, c)
+			}
 		case strings.HasPrefix(t, "ensures "):
 			rest := strings.TrimSpace(t[8:])
 			var only []string
